@@ -31,7 +31,7 @@ STANDINS = os.path.join(os.path.dirname(HERE), "standins")
 
 
 def plan(tier, seed):
-    n = 4 if tier == "quick" else 90
+    n = 6 if tier == "quick" else 200
     # odd shards have the MOSEK stand-in importable (B may use wrapper="mosek"); even shards do not, so that the
     # library's own default-solver selection (no solver named) is exercised as in the test environment
     return [{"name": "s%d" % i, "seed": seed, "shard": i, "n_pairs": n, "extra_path": [STANDINS] if i % 2 else None}
